@@ -341,6 +341,36 @@ def check(F, H1, role='both'):
     return {'bits': hc, 'size_reader': size_r, 'size_writer': size_w}
 
 
+def offset_bounded(cfg, Ef, at, S, is_end):
+    """is offset expression S (used at block `at`) smaller than the end of the message: (a) produced by iterating `a..end`, or (b) behind
+    a dominating guard `S < end`; `is_end(expr)` tells whether an expression denotes the end of the message"""
+    import guards
+    bounded = False
+    top = S
+    while isinstance(top, tuple) and top[0] in ('cast', 'ref'):
+        top = top[1]
+    if isinstance(top, tuple) and top[0] == 'proj' and isinstance(top[1], tuple) and top[1][0] == 'call' and top[1][1].endswith('Iterator::next') and tuple(top[2:4]) == ('@Some', '.0'):
+        it = top[1][2][0]
+        for _ in range(8):
+            if isinstance(it, tuple) and it[0] == 'ref':
+                it = it[1]
+            elif isinstance(it, tuple) and it[0] == 'proj' and len(it) == 2:
+                it = it[1]
+            elif isinstance(it, tuple) and it[0] == 'call' and it[1].endswith('IntoIterator::into_iter') and it[2]:
+                it = it[2][0]
+        if isinstance(it, tuple) and it[0] == 'agg' and it[1].endswith('Range::Range') and len(it[2]) == 2 and is_end(it[2][1]):
+            bounded = True
+    if not bounded:
+        for (c, truth, D) in guards.known(cfg, Ef, at):
+            if truth in (True, False):
+                c2, t2 = guards.normalise(c, truth)
+                if t2 is True and isinstance(c2, tuple) and c2[0] == 'bin':
+                    lo, hi = (c2[2], c2[3]) if c2[1] == 'Lt' else ((c2[3], c2[2]) if c2[1] == 'Gt' else (None, None))
+                    if lo is not None and lo == S and is_end(hi):
+                        bounded = True
+    return bounded
+
+
 def check_parser(b, C, H1, F=None):
     """name-independent shape check of one parse function with framing constant C"""
     cfg = CFG(b)
@@ -481,34 +511,82 @@ def check_parser(b, C, H1, F=None):
         if S is None:
             probs.append(('heuristic-scan-unbounded', 'the scan probes %s at %s: cannot see the offset it starts at' % (show(arg)[:60], b.loc(blk.term.sp))))
             continue
-        bounded = False
-        # (a) produced by iterating a..end with end == end of this message
-        top = S
-        while isinstance(top, tuple) and top[0] in ('cast', 'ref'):
-            top = top[1]
-        if isinstance(top, tuple) and top[0] == 'proj' and isinstance(top[1], tuple) and top[1][0] == 'call' and top[1][1].endswith('Iterator::next') and tuple(top[2:4]) == ('@Some', '.0'):
-            it = top[1][2][0]
-            for _ in range(8):
-                if isinstance(it, tuple) and it[0] == 'ref':
-                    it = it[1]
-                elif isinstance(it, tuple) and it[0] == 'proj' and len(it) == 2:
-                    it = it[1]
-                elif isinstance(it, tuple) and it[0] == 'call' and it[1].endswith('IntoIterator::into_iter') and it[2]:
-                    it = it[2][0]
-            if isinstance(it, tuple) and it[0] == 'agg' and it[1].endswith('Range::Range') and len(it[2]) == 2 and L.lin(it[2][1], at=blk.i) == want_end:
-                bounded = True
-        # (b) a dominating guard offset < end of this message
-        if not bounded:
-            for (c, truth, D) in guards.known(cfg, Ef, blk.i):
-                if truth in (True, False):
-                    c2, t2 = guards.normalise(c, truth)
-                    if t2 is True and isinstance(c2, tuple) and c2[0] == 'bin':
-                        lo, hi = (c2[2], c2[3]) if c2[1] == 'Lt' else ((c2[3], c2[2]) if c2[1] == 'Gt' else (None, None))
-                        if lo is not None and lo == S and L.lin(hi, at=blk.i) == want_end:
-                            bounded = True
+        bounded = offset_bounded(cfg, Ef, blk.i, S, lambda e_, at_=blk.i: L.lin(e_, at=at_) == want_end)
         if not bounded:
             probs.append(('heuristic-scan-unbounded', 'the scan for a second frame marker probes offset %s at %s without that offset being bounded by the end of this message (%d + stdh.len): '
                           'it can find the marker of the *next* message and reject a valid message as corrupt' % (show(S)[:50], b.loc(blk.term.sp), C)))
+    # the scan moved into a private helper that gets the marker predicate as an argument
+    # (`find_second_marker(data, to_consume, is_storage_header_pattern)`)
+    for blk in (b.calls() if F is not None else []):
+        t = blk.term
+        H = F.get(t.callee.resolved) if t.callee.resolved else F.get(t.callee.path)
+        if H is None or H.kind == 'closure' or H.crate != 'lib' or H.path == b.path:
+            continue
+        if not any(a.is_const and a.fn and re.search(r'::is_(storage|serial)_header_pattern$', a.fn.get('path', '')) for a in t.args):
+            continue
+        H1.fn(H.path)
+        H1.sites += 1
+        marker_calls = marker_calls or [blk]
+        ends = [H.name_of(i + 1) or 'arg%d' % (i + 1) for i, a in enumerate(t.args) if not a.is_const and L.lin(Ef.operand(a), at=blk.i) == want_end]
+        if not ends:
+            probs.append(('heuristic-scan-unbounded', 'the scan helper %s is called at %s without an argument that is the end of this message (%d + stdh.len)' % (H.path.split('::')[-1], b.loc(t.sp), C)))
+            continue
+        hcfg = CFG(H)
+        hE = ExprBuilder(hcfg, fold_named=True)
+        hloops = hcfg.loops()
+        probes = 0
+        for hb in H.calls():
+            ht = hb.term
+            if ht.callee.path not in ('std::ops::Fn::call', 'std::ops::FnMut::call_mut', 'std::ops::FnOnce::call_once') or len(ht.args) < 2:
+                continue
+            if not any(hb.i in lb for lb in hloops.values()):
+                continue
+            S = None
+            for x in walk(hE.operand(ht.args[1])):
+                if S is None and isinstance(x, tuple) and x and x[0] == 'agg' and x[1].endswith('RangeFrom::RangeFrom') and len(x[2]) == 1:
+                    S = x[2][0]
+            if S is None:
+                continue
+            probes += 1
+            if not offset_bounded(hcfg, hE, hb.i, S, lambda e_: isinstance(e_, tuple) and e_[0] == 'place' and len(e_) == 2 and e_[1] in ends):
+                probs.append(('heuristic-scan-unbounded', 'the scan helper %s probes offset %s at %s without that offset being bounded by its end parameter: it can find the marker of the next message' % (H.path.split('::')[-1], show(S)[:40], H.loc(ht.sp))))
+        if not probes:
+            probs.append(('heuristic-scan-unbounded', 'cannot find the probes of the scan helper %s' % H.path))
+    # NotEnoughData means "come back when more bytes are there": the iterator ends the stream on it.  A parser may answer so
+    # only while the buffer holds less than this message: under a guard N < k (k <= framing + minimal standard header) or
+    # N < framing + stdh.len.  Once the whole message is in the buffer the answer is the message (or InvalidData): a
+    # NotEnoughData there (e.g. "the next marker is only partially visible") loses the last message of a stream that ends
+    # with a few stray bytes.
+    CMPS = {'Lt': (0, 0), 'Le': (0, 1), 'Gt': (1, 0), 'Ge': (1, 1)}     # (swap, non-strict)
+    for blk in b.blocks:
+        if blk.cleanup:
+            continue
+        if not any(s.k == 'assign' and s.rv['k'] == 'agg' and s.rv.get('adt', '').endswith('ErrorKind') and s.rv.get('variant') == 'NotEnoughData' for s in blk.stmts):
+            continue
+        H1.sites += 1
+        seen = []
+        good = False
+        for (e, truth, D) in guards.known(cfg, Ef, blk.i):
+            if truth is not True or not (isinstance(e, tuple) and e[0] == 'bin' and e[1] in CMPS):
+                continue
+            swap, nonstrict = CMPS[e[1]]
+            la, lb = L.lin(e[2], at=D), L.lin(e[3], at=D)
+            if swap:
+                la, lb = lb, la
+            f = linform.add(la, lb, -1)          # la - lb < 0   (or <= 0)
+            if nonstrict:
+                f = linform.add(f, {1: 1}, -1)
+            seen.append(linform.fmt(f) + ' < 0')
+            if f.get('N') != 1:
+                continue
+            rest = {k_: v_ for k_, v_ in f.items() if k_ != 'N'}
+            if set(rest) <= {1} and 0 < -rest.get(1, 0) <= C + 4:
+                good = True
+            if rest == {1: -C, 'len': -1}:
+                good = True
+        if not good:
+            probs.append(('not-enough-data-with-complete-message', 'NotEnoughData is returned at %s without a guard that says the buffer is shorter than this message (N < %d or N < %d + stdh.len; guards seen: %s): '
+                          'a complete message can be answered with "wait for more data" and the stream ends before it' % (b.loc(blk.term.sp), C + 4, C, '; '.join(seen)[:160] or 'none')))
     if not marker_calls:
         probs.append(('heuristic-anchor', 'no use of is_*_header_pattern found (anchor lost)'))
     if probs:
@@ -544,13 +622,23 @@ def const_run(F, body, flags, bits, stop_at_index=False, max_steps=400):
                 continue
             if e['k'] == 'f' and isinstance(v, tuple) and e['i'] < len(v):
                 v = v[e['i']]
+            elif e['k'] == 'idx' and isinstance(v, tuple) and isinstance(env.get(e['l']), int) and 0 <= env.get(e['l']) < len(v):
+                v = v[env.get(e['l'])]        # lookup table indexed by a propagated constant
+            elif e['k'] == 'cidx' and isinstance(v, tuple):
+                i_ = (len(v) - e['off']) if e.get('fe') else e['off']
+                v = v[i_] if 0 <= i_ < len(v) else None
             else:
                 return None
         return v
 
     def opval(o):
         if o['k'] == 'const':
-            return o.get('v')
+            v = o.get('v')
+            if v is None and o.get('s') and F is not None:
+                arr = (F.consts.get(o['s']) or {}).get('arr')
+                if arr:
+                    return tuple(arr)
+            return v
         return place_val(o['p'])
 
     def rv_val(rv):
@@ -713,6 +801,55 @@ def writer_tables(F, tw, bits):
 
 # ---------------------------------------------------------------------------------------------
 # the message ECU: standard-header id whenever present
+
+def check_id_bytes_verbatim(F, R):
+    """"any counter and id bytes": ECU id, APID and CTID are four arbitrary bytes.  Every reader builds them with
+    DltChar4::from_buf, so that constructor must copy buf[0..4] verbatim and in order - a mapping of non-printable / non-ASCII
+    bytes at construction (the display rule) changes the field, collapses distinct ids and is written back on export."""
+    b = F.get('adlt::dlt::DltChar4::from_buf')
+    if b is None:
+        R.violation(('anchor-lost', 'DltChar4::from_buf'), 'DltChar4::from_buf not found')
+        return
+    R.fn(b.path)
+    cfg = CFG(b)
+    E = ExprBuilder(cfg, fold_named=True)
+    R.sites += 1
+    aggs = [s for blk in b.blocks if not blk.cleanup for s in blk.stmts if s.k == 'assign' and s.rv['k'] == 'agg' and s.rv.get('adt', '').endswith('dlt::DltChar4') and len(s.rv['ops']) == 1]
+    if len(aggs) != 1:
+        R.violation(('id-bytes-anchor', b.path), 'DltChar4::from_buf constructs %d DltChar4 values (expected one)' % len(aggs), where=b.loc(None))
+        return
+    op = Operand(aggs[0].rv['ops'][0])
+    val = E.operand(op)
+    sv = show(val)
+    nm = b.name_of(1) or 'arg1'
+    offs = None
+    if isinstance(val, tuple) and val[0] == 'agg' and val[1] == 'array' and len(val[2]) == 4:
+        offs = []
+        pl0 = cfg.origin_of_operand(op)
+        sd0 = cfg.single_def(pl0.l) if pl0 is not None and not pl0.p else None
+        ops = sd0[2].rv['ops'] if sd0 is not None and sd0[1] != 'call' and sd0[2].rv['k'] == 'agg' and sd0[2].rv.get('ak') == 'array' else []
+        for o in ops:
+            eo = Operand(o)
+            pl = cfg.origin_of_operand(eo) if eo.place is not None else None
+            off = None
+            if pl is not None and pl.l == 1 and len(pl.p) == 2 and pl.p[0]['k'] == 'deref':
+                e = pl.p[1]
+                if e['k'] == 'cidx' and not e.get('fe'):
+                    off = e['off']
+                elif e['k'] == 'idx':
+                    sd = cfg.single_def(e['l'])
+                    if sd is not None and sd[1] != 'call' and sd[2].rv['k'] == 'use' and Operand(sd[2].rv['o']).is_const:
+                        off = Operand(sd[2].rv['o']).value
+            offs.append(off)
+        if offs == [0, 1, 2, 3]:
+            R.ok(sample={'constructor': b.path, 'char4': '[buf[0], buf[1], buf[2], buf[3]] verbatim'})
+            return
+    elif re.match(r'^\{?(Result::unwrap|Result::expect|Option::unwrap)\((TryInto::try_into|TryFrom::try_from)\(', sv) and re.search(r'(^|[^A-Za-z0-9_])%s($|[^A-Za-z0-9_])' % re.escape(nm), sv) \
+            and not re.search(r'Iterator::|::map\(', sv):
+        R.ok(sample={'constructor': b.path, 'char4': 'slice of buf converted as a whole: %s' % sv[:70]})
+        return
+    R.violation(('id-bytes-not-verbatim', b.path), 'DltChar4::from_buf does not store buf[0], buf[1], buf[2], buf[3] verbatim (char4 = %s): ids with such bytes are changed by reading and distinct ids collapse' % sv[:120], where=b.loc(aggs[0].sp))
+
 
 def check_ecu_source(F, H1):
     """DltMessage::from_headers takes the ECU id from the standard header whenever the WEID flag provides one and falls back to
